@@ -472,6 +472,121 @@ def rule_d(repo, chk):
         chk.ob('C13.d', not bad, f, '%s uses no dynamic getattr/hasattr' % fn, str(bad))
 
 
+def _instance_dict_uses(func):
+    """uses of the live object's instance dictionary (object.__getattribute__(x, '__dict__') and the names it is stored in):
+    [(use_node, parent_node)]"""
+    def is_src(e):
+        return isinstance(e, ast.Call) and norm(e.func) == 'object.__getattribute__' and len(e.args) == 2 and \
+            isinstance(e.args[1], ast.Constant) and e.args[1].value == '__dict__'
+    names = set()
+    for s_ in stmts_in(func, ast.Assign):
+        if is_src(s_.value):
+            names |= {t.id for t in s_.targets if isinstance(t, ast.Name)}
+    uses = []
+    for n in own_nodes(func):
+        if is_src(n) or (isinstance(n, ast.Name) and n.id in names and isinstance(n.ctx, ast.Load)):
+            uses.append((n, getattr(n, '_parent', None)))
+    return uses, names
+
+
+def rule_f(repo, chk):
+    chk.clause('C13.f', 'the static lookup reads the instance dictionary only through the builtin\'s own unbound methods (dict.get(d, k, default)): '
+                        'an instance __dict__ may be a dict SUBCLASS whose __getitem__/__missing__/get/__contains__/__iter__ is user code, so it '
+                        'is never subscripted, iterated, tested with `in`, or asked through a bound method')
+    n = 0
+    for q, f in sorted(repo.module(STATIC).defs.items()):
+        if not isinstance(f, FUNC_TYPES):
+            continue
+        uses, names = _instance_dict_uses(f)
+        for u, par in uses:
+            if isinstance(par, ast.Assign) and u is par.value:
+                continue            # the binding itself
+            n += 1
+            ok = False
+            why = 'used in `%s`' % short(par, 60)
+            if isinstance(par, ast.Call) and u in par.args and par.args[0] is u and norm(par.func) in ('dict.get', 'dict.__getitem__', 'dict.__contains__', 'type'):
+                ok = True
+            elif isinstance(par, ast.Compare) and all(isinstance(o, (ast.Is, ast.IsNot)) for o in par.ops):
+                ok = True
+            chk.ob('C13.f', ok, u, 'the instance dictionary `%s` in %s is read through dict.<method>(d, ...) only' % (short(u, 40), q), '' if ok else why,
+                   key='instance-dict|%s|%s' % (q, norm(par) if par is not None else ''))
+    chk.floor('C13.f', n, 1, '(uses of the instance __dict__ in getattr_static.py)')
+
+
+def rule_g(repo, chk):
+    chk.clause('C13.g', 'key listing: <live>.keys()/values()/items() iterate the object (a Mapping ABC answers them through the user\'s __iter__/'
+                        '__getitem__; dict\'s own do not): such a call is gated by isinstance(<live>, dict)/exact builtin type in the method, or the '
+                        'method is reached only for values classified \'dict\' by get_array_type(), which answers \'dict\' only under '
+                        'isinstance(self._obj, dict), and every get_key_values() call site tests array_type == \'dict\' on the same receiver')
+    n = 0
+
+    def dict_gate(is_live):
+        def accept(e, pol):
+            if isinstance(e, ast.Call) and call_name(e) == 'isinstance' and len(e.args) == 2 and is_live(e.args[0]) and pol:
+                ts = e.args[1].elts if isinstance(e.args[1], ast.Tuple) else [e.args[1]]
+                return all(isinstance(t, ast.Name) and t.id in BUILTIN_CONTAINERS and repo.resolve(t) == 'builtins.' + t.id for t in ts)
+            return False
+        return accept
+    classified = None
+    for modname in (ACCESS, MIXED):
+        for q, f in sorted(repo.module(modname).defs.items()):
+            if not isinstance(f, FUNC_TYPES):
+                continue
+            is_live = live_exprs(f)
+            # nested generator helpers see the method's self._obj
+            for c in [x for x in ast.walk(f) if isinstance(x, ast.Call) and isinstance(x.func, ast.Attribute)
+                      and x.func.attr in ('keys', 'values', 'items', '__iter__', '__len__', '__getitem__') and is_live(x.func.value)]:
+                host = repo.enclosing_func(c)
+                if host is not f and repo.qual_of(host) != q:
+                    # reported once, for the innermost function
+                    pass
+                if repo.enclosing_func(c) is not f:
+                    continue
+                n += 1
+                tg = exact_type_gate(repo, is_live)
+                dg = dict_gate(is_live)
+                w = gate(f, c, lambda e, pol: tg(e, pol) or dg(e, pol) or unsafe_switch_gate(e, pol))
+                if w is None:
+                    chk.ob('C13.g', True, c, '`%s` is gated in the method' % short(c))
+                    continue
+                outer = q.split('.')
+                meth = [p_ for p_ in outer if p_ in ('get_key_paths',)]
+                if classified is None:
+                    classified = _classifier_ok(repo, chk, dict_gate)
+                ok = bool(meth) and classified
+                chk.ob('C13.g', ok, c, '`%s` in %s runs only for values get_array_type() classified as builtin dict' % (short(c), q),
+                       '' if ok else ('ungated: %s' % w), key='keys|%s|%s' % (q, norm(c)))
+    chk.floor('C13.g', n, 1, '(keys()/values()/items() of a live object)')
+
+
+def _classifier_ok(repo, chk, dict_gate):
+    g = repo.find(ACCESS, 'DirectObjectAccess.get_array_type')
+    is_live = live_exprs(g)
+    dg = dict_gate(is_live)
+    tg = exact_type_gate(repo, is_live)
+    ok = True
+    rets = [r for r in stmts_in(g, ast.Return) if not (r.value is None or (isinstance(r.value, ast.Constant) and r.value.value is None))]
+    for r in rets:
+        w = gate(g, r, lambda e, pol: dg(e, pol) or tg(e, pol))
+        ok = chk.ob('C13.g', w is None, r, 'get_array_type answers `%s` only under isinstance(self._obj, <builtin container>) or an exact type test' % short(r.value),
+                    w or '') and ok
+    if not rets:
+        ok = False
+    sites = [c for c in repo.calls_of('get_key_values') if isinstance(c.func, ast.Attribute)]
+    m = 0
+    for c in sites:
+        f = repo.enclosing_func(c)
+        if f is not None and f.name == 'get_key_values' and norm(c.func.value).startswith('self.'):
+            continue            # a wrapper forwarding get_key_values to the value it wraps
+        m += 1
+        recv = norm(c.func.value)
+        w = gate(f, c, lambda e, pol: pol and isinstance(e, ast.Compare) and len(e.ops) == 1 and isinstance(e.ops[0], ast.Eq)
+                 and norm(e.left) == recv + '.array_type' and isinstance(e.comparators[0], ast.Constant) and e.comparators[0].value == 'dict')
+        ok = chk.ob('C13.g', w is None, c, '`%s` is asked only after %s.array_type == \'dict\'' % (short(c), recv), w or '') and ok
+    chk.floor('C13.g', m, 2, '(get_key_values call sites)')
+    return ok
+
+
 def rule_e(repo, chk):
     chk.clause('C13.e', 'MUST: names are complete: CompiledValueFilter.values iterates every key of get_dir_infos() (dir(obj) in full) and, '
                         'on that path, _get returns a non-empty list on every exit')
@@ -529,4 +644,4 @@ def describe(chk):
     chk.assume('live object = `<x>._obj`, its plain local aliases, and parameters named obj/python_object in compiled/access.py and compiled/mixed.py')
 
 
-RULES = [('C13.a', rule_a), ('C13.b', rule_b), ('C13.c', rule_c), ('C13.d', rule_d), ('C13.e', rule_e)]
+RULES = [('C13.a', rule_a), ('C13.b', rule_b), ('C13.c', rule_c), ('C13.d', rule_d), ('C13.e', rule_e), ('C13.f', rule_f), ('C13.g', rule_g)]
